@@ -469,14 +469,13 @@ class Unifier:
     def record_store(self, st: Store):
         idx = self.rsub(st.index)
         val = self.rsub(st.value)
-        self.stores.setdefault(st.name, []).append((idx, val, st.node))
+        self.stores.setdefault(st.name, []).append((idx, val, getattr(st, "stmt", None) or st.node, self._store_target(idx, val)))
         self._buffer_map(st.name)
 
     def _buffer_map(self, name):
         """If every store into buffer `name` pairs index-for-index with one writer array, map it."""
         targets = set()
-        for idx, val, node in self.stores.get(name, []):
-            t = self._store_target(idx, val)
+        for idx, val, node, t in self.stores.get(name, []):
             if t is None:
                 self.varenv.pop(name, None)
                 return
